@@ -129,6 +129,10 @@ def rule_template(chk):
     chk.decide(ok, 'stage-wrapper', 'real-particles-only', node=nps[0].ast if nps else w, file=TPL, func='stage wrapper',
                detail_bad='loop bound is %s: ghosts/remote particles would be stepped (or real ones skipped)' % (
                    [U(n.ast.value) for n in nps]), detail_ok='NP_DEST = dst.size(real=True)')
+    if nps:
+        chk.decide(g.dominates(pyn.id, nps[0].id), 'stage-wrapper', 'particle-count-read-after-py_stage', node=nps[0].ast, file=TPL, func='stage wrapper',
+                   detail_bad='the number of real particles is read before the py_stage hook runs: a hook that adds or removes particles (inlet/outlet) '
+                              'leaves the loop with a stale bound', detail_ok='NP_DEST is read after the hook')
     chk.decide(g.dominates(sn.id, ln.id), 'stage-wrapper', 'pointers-before-loop', node=sn.ast, file=TPL, func='stage wrapper',
                detail_bad='array pointers are not set up before the loop', detail_ok='set up first')
     gd = [U(x) for x in cl.guards]
